@@ -821,7 +821,7 @@ fn run(ctx: &mut Ctx) {
         }
     }
     // 3. random effect-heavy programs
-    let n = tier.pick(200u64, 30_000u64) / ctx.nshards as u64 + 1;
+    let n = tier.pickn(200u64, 30_000u64) / ctx.nshards as u64 + 1;
     for j in 0..n {
         let mut rng = Rng::keyed(seed, "c09-gen", ctx.shard as u64, j);
         let mut f = Features::base();
@@ -841,7 +841,7 @@ fn run(ctx: &mut Ctx) {
         });
     }
     // 4. go programs under many schedules
-    let ng = tier.pick(32u64, 600u64) / ctx.nshards as u64 + 1;
+    let ng = tier.pickn(32u64, 600u64) / ctx.nshards as u64 + 1;
     let max_sched = tier.pick(40usize, 400usize);
     for j in 0..ng {
         let mut rng = Rng::keyed(seed, "c09-go", ctx.shard as u64, j);
